@@ -31,8 +31,11 @@ uint64_t mix(uint64_t z)
 std::string mkstring(uint64_t seed, int len)
 {
   std::string s;
-  for (int i = 0; i < len; i++)
-    s += (char)('a' + mix(seed + (uint64_t)i) % 26);
+  bool binary = (seed >> 7) & 1;  // every other string holds arbitrary bytes, NUL included
+  for (int i = 0; i < len; i++) {
+    uint64_t r = mix(seed + (uint64_t)i);
+    s += binary ? (char)(r % 7 == 0 ? 0 : r >> 8) : (char)('a' + r % 26);
+  }
   return s;
 }
 std::vector<int> mkvec(uint64_t seed, int len)
@@ -95,7 +98,7 @@ void write_value(WriteStream &w, Held &h)
   case A15_F64: w << h.f64; break;
   case A15_POD: w << h.pod; break;
   case A15_STRING: w << h.str; break;
-  case A15_CSTRING: w << h.str.c_str(); break;
+  case A15_CSTRING: w << h.str.c_str(); break;  // (a C string ends at its first NUL: see read side)
   case A15_VEC_INT: w << h.vi; break;
   case A15_VEC_STRING: w << h.vs; break;
   case A15_VEC_VEC_INT: w << h.vvi; break;
@@ -138,8 +141,8 @@ bool read_and_compare(ReadStream &r, const Held &h)
   case A15_F32: { float x; r >> x; return std::memcmp(&x, &h.f32, 4) == 0; }
   case A15_F64: { double x; r >> x; return std::memcmp(&x, &h.f64, 8) == 0; }
   case A15_POD: { Pod x; r >> x; return x == h.pod; }
-  case A15_STRING:
-  case A15_CSTRING: { std::string x; r >> x; return x == h.str; }
+  case A15_STRING: { std::string x; r >> x; return x == h.str; }
+  case A15_CSTRING: { std::string x; r >> x; return x == std::string(h.str.c_str()); }
   case A15_VEC_STRING: { std::vector<std::string> x; r >> x; return x == h.vs; }
   case A15_VEC_VEC_INT: { std::vector<std::vector<int>> x; r >> x; return x == h.vvi; }
   default: { std::vector<int> x; r >> x; return x == h.vi; }  // vectors and all array wrappers share the framing
